@@ -3,6 +3,7 @@
 package hashprefix
 
 import (
+	"errors"
 	"fmt"
 	"math/rand"
 	"sort"
@@ -86,6 +87,11 @@ type c19fService struct {
 	suffix string
 	w      *c19fWorld
 	log    []c19Seen
+	rng    *rand.Rand
+	// failing makes every exchange end with an error; failedNow counts the
+	// exchanges of the current check that did.
+	failing   bool
+	failedNow int
 }
 
 func (u *c19fService) Address() string { return "c19.fresh.lookup.example" }
@@ -118,6 +124,15 @@ func (u *c19fService) Exchange(req *dns.Msg) (*dns.Msg, error) {
 				}
 			}
 		}
+	}
+	if u.failing {
+		seen.Behaviour = "error"
+		u.log = append(u.log, seen)
+		u.failedNow++
+		return nil, errors.New("c19: injected failure of the lookup service (i/o timeout)")
+	}
+	for i, h := range strs {
+		strs[i] = c19Spell(u.rng, h)
 	}
 	u.log = append(u.log, seen)
 	if len(strs) > 0 {
@@ -189,7 +204,10 @@ func c19fHistory(rep *verifkit.Report, rng *rand.Rand, groups []c19cGroup, sampl
 	}
 	sort.Strings(listable)
 
-	svc := &c19fService{suffix: suffix, w: w}
+	svc := &c19fService{suffix: suffix, w: w, rng: rand.New(rand.NewSource(rng.Int63()))}
+	// failChecks is the number of coming checks during which the service
+	// fails.
+	failChecks := 0
 	chk := New(&Config{Upstream: svc, ServiceName: "c19f", TXTSuffix: suffix, CacheTime: ct, CacheSize: cacheSize})
 	start := time.Now()
 	for _, n := range listable {
@@ -238,6 +256,10 @@ func c19fHistory(rep *verifkit.Report, rng *rand.Rand, groups []c19cGroup, sampl
 	}
 	check := func(d c19Dom) {
 		svc.log = svc.log[:0]
+		svc.failing, svc.failedNow = failChecks > 0, 0
+		if failChecks > 0 {
+			failChecks--
+		}
 		var got bool
 		var err error
 		var panicked any
@@ -249,8 +271,15 @@ func c19fHistory(rep *verifkit.Report, rng *rand.Rand, groups []c19cGroup, sampl
 		from := now.Add(-ct - c19fMargin)
 		step := c19fStep{AtS: now.Sub(start).Seconds(), Op: "check", Host: d.Name,
 			Asked: append([]c19Seen{}, svc.log...)}
+		svc.failing = false
+		failed := svc.failedNow > 0
+		// askedNow: prefixes of the requests of this check that were answered;
+		// a failed request gives no knowledge.
 		askedNow := map[string]bool{}
 		for _, q := range svc.log {
+			if q.Behaviour != "" {
+				continue
+			}
 			rest := strings.TrimSuffix(strings.TrimSuffix(strings.ToLower(q.Name), suffix), ".")
 			if rest != "" {
 				for _, l := range strings.Split(rest, ".") {
@@ -310,8 +339,16 @@ func c19fHistory(rep *verifkit.Report, rng *rand.Rand, groups []c19cGroup, sampl
 				changedBefore = true
 			}
 		}
+		if failed {
+			rep.Class("checks:service_failed")
+			if oldest > ct+c19fMargin {
+				rep.Class("checks:service_failed_and_needed_knowledge_older_than_cache_time")
+			}
+		}
 		ageClass := "all_prefixes_asked_now"
 		switch {
+		case failed:
+			ageClass = "request_failed"
 		case len(askedNow) == 0 && oldest < ct/2:
 			ageClass = "no_request:knowledge_in_first_half_of_cache_time"
 		case len(askedNow) == 0 && oldest <= ct:
@@ -329,15 +366,27 @@ func c19fHistory(rep *verifkit.Report, rng *rand.Rand, groups []c19cGroup, sampl
 		case panicked != nil:
 			rep.Violate("check-panicked:freshness", fmt.Sprintf("Check(%q) panicked: %v", d.Name, panicked), wit(nil))
 			return
+		case err != nil && failed:
+			// An error is always an acceptable outcome of a failed lookup.
+			rep.Unspec("Check returned an error while the service was failing")
+			rep.Event("failing_checks_that_returned_an_error")
+			return
 		case err != nil:
 			rep.Unspec("Check returned an error although the service answered")
 			return
+		}
+		if failed {
+			// A verdict in spite of the failure is fine as long as it is
+			// justified by knowledge inside the window, like any other.
+			rep.Event("failing_checks_that_returned_a_verdict")
 		}
 		if mayBlock && mayClean {
 			rep.Unspec("either verdict acceptable: the listing changed less than cache time ago")
 		}
 		sent := "without-lookup"
-		if len(svc.log) > 0 {
+		if failed {
+			sent = "lookup-failed"
+		} else if len(svc.log) > 0 {
 			sent = "lookup-sent"
 		}
 		switch {
@@ -368,6 +417,12 @@ func c19fHistory(rep *verifkit.Report, rng *rand.Rand, groups []c19cGroup, sampl
 		}
 	}
 
+	outage := func(n int) {
+		failChecks = n
+		trace = append(trace, c19fStep{AtS: time.Since(start).Seconds(),
+			Op: fmt.Sprintf("service-fails-during-the-next-%d-checks", n)})
+		rep.Event("service_outages")
+	}
 	pick := func() c19Dom {
 		if rng.Intn(10) < 6 {
 			return universe[rng.Intn(min(len(universe), len(names)))]
@@ -404,10 +459,32 @@ func c19fHistory(rep *verifkit.Report, rng *rand.Rand, groups []c19cGroup, sampl
 				toggle(listable[rng.Intn(len(listable))])
 			}
 		}
+		// Outage: the service fails for the next checks, mostly after every
+		// entry has expired (and after another listing change), sometimes
+		// inside the lifetime; then it recovers.
+		if rng.Intn(10) < 7 {
+			if rng.Intn(2) == 0 {
+				toggle(main.A[rng.Intn(len(main.A))])
+			}
+			if rng.Intn(4) == 0 {
+				advance(fr(0.1, 0.9))
+			} else {
+				advance(ct + 3*time.Second + fr(0, 1.5))
+			}
+			outage(1 + rng.Intn(3))
+			check(main)
+			for failChecks > 0 {
+				check(pick())
+			}
+			check(main)
+			check(pick())
+		}
 	} else {
 		rep.Class("history:random")
 		for s := 15 + rng.Intn(30); s > 0; s-- {
 			switch r := rng.Intn(100); {
+			case r < 5:
+				outage(1 + rng.Intn(3))
 			case r < 55:
 				check(pick())
 			case r < 85:
@@ -466,10 +543,14 @@ func TestVerifC19Fresh(t *testing.T) {
 	for _, k := range []string{"lookup_requests_seen", "database_changes:listing", "database_changes:delisting",
 		"verdict_reflects_listing_change_older_than_cache_time:blocked",
 		"verdict_reflects_listing_change_older_than_cache_time:clean",
-		"verdicts_without_request:blocked", "verdicts_without_request:clean"} {
+		"verdicts_without_request:blocked", "verdicts_without_request:clean",
+		"failing_checks_that_returned_an_error"} {
 		if rep.Events[k] == 0 {
 			rep.Inconcl("event never observed: " + k)
 		}
+	}
+	if rep.Classes["checks:service_failed_and_needed_knowledge_older_than_cache_time"] == 0 {
+		rep.Inconcl("the service never failed during a check whose needed knowledge was older than the cache time")
 	}
 	if rep.Classes["checks:no_request:knowledge_in_second_half_of_cache_time"] == 0 {
 		rep.Inconcl("no check was answered from knowledge in the second half of the cache time")
